@@ -10,6 +10,7 @@ import (
 
 	"falcosim/sim/astcmp"
 	"falcosim/sim/simio"
+	"falcosim/sim/simsync"
 	"falcosim/sim/vclgen"
 	"falcosim/sim/worker"
 
@@ -291,6 +292,17 @@ type c01Source struct {
 }
 
 func c01DrawSource(c *worker.Ctx) c01Source {
+	if c.T.Bool(1, 40) {
+		cs := Corpus()
+		var pick []source
+		for _, s := range cs {
+			if validPlain[s.Name] || strings.HasPrefix(s.Name, "hand/bad-escape") {
+				pick = append(pick, s)
+			}
+		}
+		s := pick[c.T.Draw(len(pick))]
+		return c01Source{s.Name, []byte(s.Text)}
+	}
 	switch c.T.Draw(3) {
 	case 0:
 		cs := Corpus()
@@ -307,6 +319,12 @@ func c01DrawSource(c *worker.Ctx) c01Source {
 		return c01Source{"gen/program", []byte(vclgen.Program(c.T, o))}
 	}
 }
+
+const historyProbe = "sub vcl_recv {\n  set req.http.P = \"probe%20value\";\n  log \"second\" + req.http.P;\n  if (req.url ~ \"^/a\") {\n    error 601 \"x\";\n  }\n}\n"
+
+// validPlain names corpus sources that are valid VCL for a plain parser and use
+// the test runner's reserved words as ordinary identifiers.
+var validPlain = map[string]bool{"hand/describe-words": true, "hand/hook-words": true}
 
 var controlSplices = []string{"pragma optional_param x 1;", "pragma optional_param x 1", "pragma", "pragma ", "C!", "W!", "C", "W!;", "pragma a b c d e f g;", "\npragma x\n"}
 
@@ -406,8 +424,11 @@ func runC01Interleaved(c *worker.Ctx) {
 	}
 	alone := make([]c01Alone, n)
 	for i := range srcs {
+		// "alone" means alone: no buffer of another user's parse is lying in a pool
+		simsync.ResetPools()
 		alone[i] = c01Use(srcs[i].text, ents[i], c)
 	}
+	simsync.ResetPools()
 	every := []int{1, 1, 3, 17, 101}[c.T.Draw(5)]
 	got := make([]c01Alone, n)
 	var tasks []*coTask
@@ -567,6 +588,9 @@ func runC01(c *worker.Ctx) {
 	}
 
 	// ---- parsing ----------------------------------------------------------
+	// A fixed, valid source parsed before and after everything this case does:
+	// what it parses to must not depend on what was parsed in between.
+	probeBefore := runEntry(entries[0], []byte(historyProbe), base, c)
 	type keptErr struct {
 		entry string
 		pe    *parser.ParseError
@@ -588,9 +612,12 @@ func runC01(c *worker.Ctx) {
 			res.Violate("C01/O2-terminates", "C01/parse-spin:"+o.stack, fmt.Sprintf("%s asked for more than 64·(n+64) tokens / kept reading after EOF (%s) — it does not terminate\ninput (%s, %s):\n%s", e.name, o.spin, src.id, mutation, clipSrc(string(delivered))))
 		case o.err != nil:
 			res.Probe("parse_error_returned")
-			var pe *parser.ParseError
-			cause := errors.Cause(o.err)
-			if !errors.As(cause, &pe) {
+			// the property's observation point is errors.Cause(err).(*parser.ParseError):
+			// a plain type assertion, as every caller in falco does it; a ParseError
+			// buried under a %w wrapper does not reach those callers.
+			pe, isPE := errors.Cause(o.err).(*parser.ParseError)
+			if !isPE || pe == nil {
+				pe = nil
 				res.Violate("C01/O4-error-located", "C01/error-unlocated:"+errClass(o.err), fmt.Sprintf("%s returned an error that is not a *parser.ParseError and carries no location: %v\ninput (%s, %s):\n%s", e.name, o.err, src.id, mutation, clipSrc(string(delivered))))
 			} else if w := checkErrorToken(pe.Token, loc, lx.tokens); w != "" {
 				key := "C01/error-location:" + string(pe.Token.Type) + ":" + w
@@ -623,18 +650,37 @@ func runC01(c *worker.Ctx) {
 		}
 	}
 	// History: parsers with other options (the test runner's custom parsers)
-	// have existed since the first plain parse of this input. A plain parse of
-	// the same bytes must still end the same way.
+	// have existed since the first plain parse of this input — in this case
+	// and, except in a fresh process, in earlier ones. A plain parse of the
+	// same bytes must still end the same way; and a source that is valid VCL
+	// (validPlain: its identifiers are words only the test runner's syntax
+	// reserves) is owed a tree both times. One key for both observations: in
+	// a fresh process (the replay) the first parse is still untouched and only
+	// the second differs.
 	if len(res.Violations) == 0 && firstPlain.panicV == nil && firstPlain.spin == "" {
 		again := runEntry(entries[0], delivered, base, c)
 		same := again.class() == firstPlain.class() && again.rendered == firstPlain.rendered
 		if same && again.err != nil && firstPlain.err != nil {
 			same = again.err.Error() == firstPlain.err.Error()
 		}
-		if !same {
+		owedTree := validPlain[src.id] && mutation == "" && len(delivered) == len(src.text)
+		if owedTree {
+			res.Probe("valid_source_with_test_syntax_words_parsed_plain")
+		}
+		switch {
+		case !same:
 			res.Violate("C01/O5-independent-users", "C01/history:plain-parse-changed", fmt.Sprintf("the same bytes parsed again with a plain parser, after parsers with the test runner's custom syntax had parsed them, end differently: first %s (%v), now %s (%v)\ninput (%s, %s):\n%s", firstPlain.class(), firstPlain.err, again.class(), again.err, src.id, mutation, clipSrc(string(delivered))))
+		case owedTree && again.class() != "tree":
+			res.Violate("C01/O5-independent-users", "C01/history:plain-parse-changed", fmt.Sprintf("a valid VCL source is rejected by a plain parser (%v); the words it uses as identifiers are reserved only by the test runner's custom syntax, which other parsers of this process have used before\ninput (%s):\n%s", again.err, src.id, clipSrc(string(delivered))))
 		}
 		res.Probe("plain_parse_repeated_after_custom_parsers")
+	}
+	if len(res.Violations) == 0 {
+		probeAfter := runEntry(entries[0], []byte(historyProbe), base, c)
+		if probeAfter.class() != probeBefore.class() || probeAfter.rendered != probeBefore.rendered || astcmp.Diff(probeBefore.tree, probeAfter.tree) != "" {
+			res.Violate("C01/O5-independent-users", "C01/history:later-parse-changed", fmt.Sprintf("a fixed valid source parses differently after the parses of this case than before them: before %s, after %s (%v); tree difference: %s\nsource parsed in between (%s, %s):\n%s", probeBefore.class(), probeAfter.class(), probeAfter.err, astcmp.Diff(probeBefore.tree, probeAfter.tree), src.id, mutation, clipSrc(string(delivered))))
+		}
+		res.Probe("fixed_source_parsed_before_and_after")
 	}
 	// An error value keeps designating its own text: a later parse (another
 	// entry point, another source) must not change what an earlier error says.
